@@ -568,7 +568,7 @@ class Discharger:
             todo = [k for k, r in enumerate(results) if r["status"] == "undischarged" and items[k][0].expect != "sat"
                     and (depth != "focus" or getattr(items[k][0], "focus", None))]
             if not todo:
-                break
+                continue          # (not `break`: the first variant applies only to obligations with a `using` list)
             sliced = []
             for k in todo:
                 ob = items[k][0]
